@@ -325,7 +325,11 @@ Close Scope R_scope.
 Open Scope Z_scope.
 
 Lemma K_bin_oor x lo up : bin_oor x lo up = (x <? lo) || (up <? x).
-Proof. unfold bin_oor. rewrite Z.gtb_ltb. reflexivity. Qed.
+Proof.
+  unfold bin_oor. rewrite Z.geb_leb.
+  destruct (lo <=? x) eqn:A; destruct (x <=? up) eqn:B; destruct (x <? lo) eqn:C; destruct (up <? x) eqn:D;
+    cbn; try reflexivity; lia.
+Qed.
 Lemma K_bin_nbins n : bin_nbins n = n - 1.
 Proof. reflexivity. Qed.
 Lemma K_eh_idx_e d : eh_idx_e d = d - 1.
